@@ -11,6 +11,10 @@
 (*   RunStart{runid, toplevel}      start-up transaction, before its commit*)
 (*   Census{rows, edges}            the harness read the database when     *)
 (*                                  everything had finished                *)
+(*   Block{what}     the process waits for something outside itself: a     *)
+(*                   blocking lock wait (logged before F_SETLKW), a        *)
+(*                   select() on its jobs, the input of redo-stamp (logged *)
+(*                   after it was read)                                    *)
 (* The specification applies the buffered writes of each transaction at    *)
 (* its Commit and demands that the census equals the result.               *)
 (***************************************************************************)
@@ -66,6 +70,11 @@ Check ==
             IF e.toplevel /\ e.runid \in runids THEN "run id handed out twice"
             ELSE IF e.toplevel /\ runids # {} /\ \E r \in runids : r > e.runid THEN "run id smaller than an earlier one"
             ELSE ""
+      \* a write transaction is a short critical section (RedoDb: every holder of the write lock commits after finitely
+      \* many of its own steps; the others wait at most the busy timeout): it must not contain a wait for another process
+      [] e.ev = "Block" -> IF Open(e.pid) /\ tx[e.pid].mode = "imm"
+                           THEN "process waits for something outside itself while it holds the database write lock"
+                           ELSE ""
       [] e.ev = "Exit" -> ""
       [] e.ev = "Census" ->
             LET want == {[id |-> i, row |-> rows[i]] : i \in DOMAIN rows}
